@@ -104,6 +104,9 @@ mut('C15', 'ext_via_rsplit', PA, "    match path.as_ref().extension() {\n       
 mut('C17', 'var_name_stops_at_slash_only', PA, "chars.take_while_p(|&x| x != '$' && x != '}')", "chars.take_while_p(|&x| x != '$' && x != '/')")
 mut('C19', 'string_trim_suffix_rfind', 'src/core/string.rs', "        match self.ends_with(&target) {\n            true => self[..self.len() - target.len()].to_owned(),\n            _ => self.to_owned(),\n        }\n    }\n}\n\n/// Provides to_string", "        match self.rfind(&target) {\n            Some(i) => self[..i].to_owned(),\n            _ => self.to_owned(),\n        }\n    }\n}\n\n/// Provides to_string")
 
+mut('C19', 'slice_abs_min', 'src/core/iter.rs', "        } else if right < 0 && right.unsigned_abs() <= len as usize {\n            r = right.unsigned_abs() - 1;", "        } else if right < 0 && right.abs() <= len {\n            r = (right.abs() - 1).unsigned_abs();")
+mut('C19', 'slice_unguarded_left', 'src/core/iter.rs', "        if left < 0 {\n            l = (len + left) as usize;\n        }", "        if left != 0 {\n            l = (len + left) as usize;\n        }")
+
 
 def main():
     base = subprocess.check_output(['git', '-C', REPO, 'status', '--porcelain', '--', 'src'], text=True).strip()
